@@ -22,7 +22,6 @@ import (
 )
 
 const (
-	c19MaxN      = 3
 	c19MaxSupply = 2_100_000_000_000_000 // 21e6 BTC in satoshi: no channel is larger
 )
 
@@ -182,10 +181,13 @@ func c19Same(r *unifiedEdge, c c19Chan) bool {
 		r.inboundFees.Base == c.ibase && r.inboundFees.Rate == c.irate
 }
 
-// VerifC19UnifierNetwork: channels between two remote nodes.
-func VerifC19UnifierNetwork() {
+// VerifC19UnifierNetwork<n>: n parallel channels between two remote nodes.
+func VerifC19UnifierNetwork1() { c19UnifierNetwork(1) }
+func VerifC19UnifierNetwork2() { c19UnifierNetwork(2) }
+func VerifC19UnifierNetwork3() { c19UnifierNetwork(3) }
+
+func c19UnifierNetwork(n int) {
 	c19UnifierConfig()
-	n := 1 + vChoice("n", c19MaxN)
 	chans, u, net, nextOut := c19UnifierInputs(n)
 	u.localChan = false
 
@@ -228,10 +230,13 @@ func VerifC19UnifierNetwork() {
 	vAssert(isSome, "synthetic time-lock delta is the delta of a usable channel")
 }
 
-// VerifC19UnifierLocal: channels of the sender itself (first hop).
-func VerifC19UnifierLocal() {
+// VerifC19UnifierLocal<n>: n channels of the sender itself to one peer (first hop).
+func VerifC19UnifierLocal1() { c19UnifierLocal(1) }
+func VerifC19UnifierLocal2() { c19UnifierLocal(2) }
+func VerifC19UnifierLocal3() { c19UnifierLocal(3) }
+
+func c19UnifierLocal(n int) {
 	c19UnifierConfig()
-	n := 1 + vChoice("n", c19MaxN)
 	chans, u, net, nextOut := c19UnifierInputs(n)
 	u.localChan = true
 
